@@ -422,6 +422,8 @@ RULES = [
 from ..selftest import M  # noqa: E402
 F, FC = 'txtorcon/endpoints.py', 'txtorcon/torconfig.py'
 MUTANTS = [
+    M('wanted-never-bound', FC, "            wanted = socks_config.split()[0]\n            if not any([port", "            if not any([port", ['R-X']),
+    M('path-never-defined', FC, "        path = socks_config[5:]\n        if path.startswith", "        if path.startswith", ['R-X']),
     M('rollback-by-snapshot', FC, ["                self.SocksPort.append(socks_config)\n", "                except TorProtocolError as e:\n"], ["                previous = list(self.SocksPort)\n                self.SocksPort.append(socks_config)\n", "                except TorProtocolError as e:\n                    self.SocksPort = previous\n"], ['R18.5']),
     M('agent-whole-line-membership', 'txtorcon/web.py', "    wanted = socks_config.split()[0]\n    if not any(port.split()[0] == wanted for port in torconfig.SocksPort):", "    if socks_config not in torconfig.SocksPort:", ['R18.5']),
     M('candidates-not-stripped', F, "    socks_ports = [port.split()[0] for port in socks_ports]\n", "", ['R18.3']),
